@@ -944,7 +944,7 @@ func parseRegister(s string) (RegisterType, error) {
 
 func parseOffsetReg(s string) (int32, RegisterType, error) {
 	firstParenthesis := strings.IndexRune(s, '(')
-	if firstParenthesis == -1 {
+	if firstParenthesis == -1 || s[len(s)-1] != ')' {
 		return 0, 0, fmt.Errorf("invalid offset register: %s", s)
 	}
 
